@@ -13,7 +13,9 @@ Conventions
 * `IrcUser.auth` keeps expired logins: the code removes an expired entry lazily when a scan
   happens to pass it, the model never does.  No read can tell — every read filters by `authLive`,
   time does not run backwards within a history and the timeout is fixed — and the harness
-  compares live logins;
+  compares live logins.  The one reader of the raw list is `Irc.doNick` (`Op.followNick`), right
+  after `getUserId` has scanned it: there the scan's pruning is modelled (`pruneScan`), which
+  leaves the same live entries and the same decision whether `setUser` runs;
 * exceptions: `Err.key` = KeyError, `Err.value` = ValueError / DuplicateHostmask,
   `Err.assertion` = AssertionError.
 * `invalidateCache(hostmask=h)` would raise KeyError if the reverse entry of a cached hostmask
@@ -347,6 +349,10 @@ inductive Op
   | setName (id : Nat) (name : Str)
   /-- users.conf loader: `setUser(fresh record)`; on DuplicateHostmask drop its masks and retry -/
   | load (id : Nat) (name : Str) (secure : Bool) (masks : List Str)
+  /-- `Irc.doNick` under `supybot.followIdentificationThroughNickChanges`: every login entry of
+  account `id` whose hostmask equals `old` under IRC case folding is rewritten to `new`
+  (`u.auth[i] = (when, newhostmask)`), then `setUser` -/
+  | followNick (id : Nat) (old new : Str)
   | delUser (id : Nat)
   /-- the clock advances -/
   | tick (dt : Nat)
@@ -392,6 +398,26 @@ def registerTail (st1 : St) (u0 : User) (h : Option Str) : St × Out :=
       (match s.2 with
        | .ok _ => (s.1, .done)
        | .error e => ((delUser s.1 u0.id).1, .err e))
+
+/-- the login entries after `Irc.doNick` followed a nick change `old → new` -/
+def followAuth (old new : Str) (auth : List (Int × Str)) : List (Int × Str) :=
+  auth.map (fun a => if strEqual old a.2 then (a.1, new) else a)
+
+/-- what `checkHostmask(h)` leaves of the login list it scans: expired entries are dropped up to
+the first unexpired login from exactly `h`, where the scan returns.  (Elsewhere the model keeps
+expired logins, which no read can tell; `Irc.doNick` reads the list right after `getUserId` has
+run this scan on it, and whether an entry is left decides whether `setUser` runs.) -/
+def pruneScan (timeout now : Int) (h : Str) : List (Int × Str) → List (Int × Str)
+  | [] => []
+  | e :: rest =>
+    if !authLive timeout now e then pruneScan timeout now h rest
+    else if e.2 == h then e :: rest
+    else e :: pruneScan timeout now h rest
+
+/-- … and after the first pass of that loop only -/
+def followFirst (old new : Str) : List (Int × Str) → List (Int × Str)
+  | [] => []
+  | a :: rest => if strEqual old a.2 then (a.1, new) :: rest else a :: followFirst old new rest
 
 def step (st : St) : Op → St × Out
   | .register name h =>
@@ -473,6 +499,21 @@ def step (st : St) : Op → St × Out
     | .error _ =>
       let s2 := setUser s.1 { u with hostmasks := [] } false
       (s2.1, outOfUnit s2.2)
+  | .followNick id old new => withUser st id fun u =>
+      -- `setUser` runs inside the loop, after each rewritten entry: not at all when none matches,
+      -- and when it raises (another account holds a login equal to one of this account's masks)
+      -- only the first matching entry has been rewritten
+      let a0 := pruneScan st.db.timeout st.now old u.auth      -- `getUserId(old)` has just scanned it
+      if !(a0.any (fun a => strEqual old a.2)) then (st, .done) else
+      let uF := { u with auth := followFirst old new a0 }
+      let sF := setUser { st with db := st.db.putUser uF } uF
+      match sF.2 with
+      | .error e => (sF.1, .err e)
+      | .ok _ =>
+        let u1 := { u with auth := followAuth old new a0 }
+        let st1 := { st with db := st.db.putUser u1 }
+        let s := setUser st1 u1
+        (s.1, outOfUnit s.2)
   | .delUser id => let s := delUser st id; (s.1, outOfUnit s.2)
   | .tick dt => ({ st with now := st.now + dt }, .done)
   | .lookup s =>
